@@ -14,7 +14,8 @@ PID = "C09"
 KEY_JSON_FIRST = "tmpdir-json-before-obs"
 REPORTED = set()
 
-# (name, OVNI_TMPDIR mode, readdir order spec or None = what the file system gives)
+# (name, OVNI_TMPDIR mode, readdir order spec or None = what the file system gives); the readdir order
+# only matters to the code before `fix: relocate stream.obs before stream.json`
 CONFIGS = [("direct", False, None), ("tmp-obs-first", True, ".:oj"), ("tmp-json-first", True, ".:jo"),
            ("tmp-native", True, None)]
 
@@ -138,7 +139,10 @@ def run_config(res, prep, h, drv, emu, d, cfg, scripts, kills=None):
         if probs:
             found = True
             order_seen = ref[k].order()
-            json_first = tmp and "j" in order_seen and "o" in order_seen and order_seen.index("j") < order_seen.index("o")
+            # which file was relocated first (from the fault-free call log)
+            dst = [c for c in ref[k].calls if c.startswith("fopen:F/") and c.endswith(":w")]
+            json_first = tmp and any(c.endswith("/json:w") for c in dst) and any(c.endswith("/obs:w") for c in dst) and \
+                next(i for i, c in enumerate(dst) if c.endswith("/json:w")) < next(i for i, c in enumerate(dst) if c.endswith("/obs:w"))
             key = KEY_JSON_FIRST if json_first else "c09:oracle:%s:%s" % (name, probs[0][:50].replace(" ", "_"))
             res.dist("violation:" + key)
             viol.append((0 if p1 else 1, key, "crash consistency violated by libovni (%s, readdir order %s, kill before call %d = %s): %s" % (
@@ -169,7 +173,8 @@ def load_replay(path):
 def check(res, tier, replay=None):
     res.cov["rule"] = ("conformant single-thread programs with several flushes (some padded so that the stream up to OHe "
                        "ends on a 4096-byte stdio boundary and flushed events follow) run on the real libovni in direct "
-                       "mode and in OVNI_TMPDIR mode with readdir order obs-first / json-first / native; (a) the "
+                       "mode and in OVNI_TMPDIR mode (readdir order obs-first / json-first / native, which only matters to the code "
+                       "before the fix that relocates stream.obs first by name); (a) the "
                        "interposed libc call list must equal the model's; (b) a kill before EVERY intercepted call: the "
                        "remains must be a crash state of the model (any prefix of stdio buffers) and satisfy the oracle "
                        "'ovniemu -l accepts a tree => every visible stream holds every flushed event' and 'finished=1 in "
